@@ -64,7 +64,7 @@ INVS_ALL = INVS_INGEST + ["UniqueExact", "StreamExact"]
 PROPS_CLEAN = ["CleanInconsistentExact", "CleanWindowExact", "CleanNamesExact", "CleanAssocFrame"]
 PROPS_RUNS = ["SameAnswer"]
 ACTIONS = ["Open", "SaveData", "Exit", "InsertNodes", "InsertAssoc", "Filter", "RemoveInconsistent",
-           "RemoveOutsideWindow", "UpdateJobNames", "SkipCleaning", "UgStart", "HashPage", "SelectUnique", "Stream",
+           "RemoveOutsideWindow", "UpdateJobNames", "SkipCleaning", "UgStart", "HashPage", "SelectUnique", "StreamFrom", "Reenter",
            "EndRun"]
 
 
